@@ -473,7 +473,15 @@ class NestablePool(__import__("multiprocessing").pool.Pool):
 
 
 def run_any(job):
-    return run_layout_unit(job) if job.get("kind") == "layout" else run_unit(job)
+    if job.get("kind") == "layout":
+        return run_layout_unit(job)
+    if job.get("kind") == "stmt":
+        from . import c01_stmt
+        return c01_stmt.run_ppci(job["src"], job["names"], job["ks"])
+    if job.get("kind") == "events":
+        from . import c01_stmt
+        return c01_stmt.run_events(job)
+    return run_unit(job)
 
 
 # ---------------------------------------------------------------------------------------------
